@@ -398,7 +398,7 @@ func c12Periodic(c *Ctx, idx int) {
 func init() {
 	Register(&Property{
 		ID:            "C12",
-		Rule:          "x[start:stop:step] on arrays [0..n-1] and on strings of n mixed-width code points and of n single-byte characters (also as a bare slice of the current node after a pipe): exhaustive lattice n in 0..7 x start,stop in {absent, -9..9, +-2^62, 2^63-1, -2^63, -2^63+1} x step in {absent, +-1,2,3,7,8, 2^63-1, -2^63, -2^63+1, 2^62, 0, -0}, every spelling of absent parts; seeded n <= 300 with random 64-bit parameters plus the projection rule (array slice projects, string slice does not); prose stream: strings of 60-360 characters made of runs of 20-70 single-byte characters separated by single multi-byte ones, sliced with every step 1..80 from several starts; long stream: a 70000-element array and 70000-character strings (mixed-width and single-byte) with every pair of bounds from {absent, 0, 1, 2^15-1..2^15+1, 2^16-2..2^16+1, 69999..70001, their negatives, 2^17-1, 2^17} in every syntactic position of a slice or index; nested stream: slices inside the right-hand side of another slice's projection, beside it in multi-selects, after pipes/flatten, inside filters and expression references, over 2-D/3-D arrays and records of arrays and strings; compared with the specification's slice algorithm on big integers (model and a second direct oracle); non-trivial = model decides; distinct by (carrier, slice text, n); periodic stream: strings of 64..4096 code points made of 14 repeated mixed-width units whose byte length is an exact multiple of the code point count, and the same plus one character, under 17 slices; byte-heavy stream: 13 subjects whose byte length and code point count fall on different sides of 2^15 / 2^16 / 2^17 (21845..43691 three-byte, 32768..65535 two-byte, 16384 four-byte characters, mixed) sliced backwards, forwards, stepped, near both ends and around byte offsets 32768 / 65536 / 131072; padded-bounds stream: 1..5000 leading zeros in 22 index / slice forms",
+		Rule:          "x[start:stop:step] on arrays [0..n-1] and on strings of n mixed-width code points and of n single-byte characters (also as a bare slice of the current node after a pipe): exhaustive lattice n in 0..7 x start,stop in {absent, -9..9, +-2^62, 2^63-1, -2^63, -2^63+1} x step in {absent, +-1,2,3,7,8, 2^63-1, -2^63, -2^63+1, 2^62, 0, -0}, every spelling of absent parts; seeded n <= 300 with random 64-bit parameters plus the projection rule (array slice projects, string slice does not); prose stream: strings of 60-360 characters made of runs of 20-70 single-byte characters separated by single multi-byte ones, sliced with every step 1..80 from several starts; long stream: a 70000-element array and 70000-character strings (mixed-width and single-byte) with every pair of bounds from {absent, 0, 1, 2^15-1..2^15+1, 2^16-2..2^16+1, 69999..70001, their negatives, 2^17-1, 2^17} in every syntactic position of a slice or index; nested stream: slices inside the right-hand side of another slice's projection, beside it in multi-selects, after pipes/flatten, inside filters and expression references, over 2-D/3-D arrays and records of arrays and strings; compared with the specification's slice algorithm on big integers (model and a second direct oracle); non-trivial = model decides; distinct by (carrier, slice text, n); periodic stream: strings of 64..4096 code points made of 14 repeated mixed-width units whose byte length is an exact multiple of the code point count, and the same plus one character, under 17 slices; byte-heavy stream: 13 subjects whose byte length and code point count fall on different sides of 2^15 / 2^16 / 2^17 (21845..43691 three-byte, 32768..65535 two-byte, 16384 four-byte characters, mixed) sliced backwards, forwards, stepped, near both ends and around byte offsets 32768 / 65536 / 131072; padded-bounds stream: 1..5000 leading zeros in 22 index / slice forms; paging stream: arrays of 3..9 elements with nulls in 40 patterns x skip 0..4 x take 0..4 x 18 spellings of two slices in a row (pipes, chains, parentheses, lets, projections of fields)",
 		MinNontrivial: 5000,
 		Streams: []Stream{
 			{Name: "lattice", N: c12LatticeN, Run: c12Lattice, Exhaustive: true},
